@@ -143,7 +143,7 @@ func (p *provider) GetOrCreate(ctx context.Context, state State, cache bool) (Cu
 
 	cur, err := newCursor(ctx, state, p.Itf)
 	if err == errNoSources {
-		return emptyCur, nil
+		return emptyCursor{State{Query: state.Query}}, nil
 	}
 	if err != nil {
 		return nil, err
@@ -183,8 +183,8 @@ func (p *provider) GetOrCreate(ctx context.Context, state State, cache bool) (Cu
 }
 
 func (p *provider) Release(ctx context.Context, curs Cursor) State {
-	if curs == emptyCur {
-		return State{}
+	if ec, ok := curs.(emptyCursor); ok {
+		return ec.state
 	}
 
 	cur := curs.(*crsr)
